@@ -13,8 +13,9 @@ from ..src import rename_id, AnalysisError, loc, norm, own_nodes
 
 SOLVER = "tdgl.solver.solver"
 RUNNER = "tdgl.solver.runner"
-TECH = ("value numbering of the adaptive block of TDGLSolver.update against eq. dt-tentative; structural/CFG rules on the "
-        "retry loop of adaptive_euler_step; def-use of dt from the last accepted solve to the record, result and clock")
+TECH = ("value numbering of the adaptive block of TDGLSolver.update against eq. dt-tentative; the retry protocol of "
+        "adaptive_euler_step followed statement by statement over 48 scenarios (bound x adaptive x refusals) on a finite domain "
+        "with the step as a monomial dt*m^k; def-use of dt from the last accepted solve to the record, result and clock")
 
 
 def check(ctx):
